@@ -1,3 +1,4 @@
+import SafeNet.Gen.Lifecycle
 /-!
 # C19 model: service lifecycle (registry) vs. the managed processes (OS), under faults
 
@@ -10,7 +11,8 @@ call consumes one bit of the fault oracle (`Fx.pop`); a faulted call returns an 
 
 Service identity: the service name is `antnode{number}`, its data directory `<base>/antnode{number}` and its
 binary `<data dir>/antnode`, so name, directory and binary path are all represented by `number`.
-The numbering rule is the one in the fixed `add_node`: next number = highest recorded number + 1.
+The numbering rule (`startNumber`), whether `on_stop` clears the pid and whether `on_start` writes before or after
+its RPC calls are read from the Rust source by `rs2lean` (`Gen/Lifecycle.lean`).
 -/
 namespace SafeNet.Lifecycle
 
@@ -105,7 +107,12 @@ def osKill (os : OS) (n : Nat) : OS := { os with procs := os.procs.filter (fun p
 
 /-! ## `NodeService` state actions -/
 
-def onStop (s : Svc) : Svc := { s with pid := none, status := .stopped }
+def onStop (s : Svc) : Svc :=
+  { s with pid := if Gen.Lifecycle.onStopClearsPid then none else s.pid, status := .stopped }
+
+/-- The registry entry `on_start` leaves behind when one of its RPC calls fails. -/
+def rpcErrSvc (s : Svc) (pid : Nat) : Svc :=
+  if Gen.Lifecycle.onStartWritesAfterRpc then s else { s with status := .running, pid := some pid }
 
 /-- One RPC call: fault bit first, then the call fails if the node process is not alive. -/
 def rpcCall (os : OS) (n : Nat) (fx : Fx) (faultTxt : String) : Fx × Option String :=
@@ -119,15 +126,15 @@ def rpcCall (os : OS) (n : Nat) (fx : Fx) (faultTxt : String) : Fx × Option Str
 def onStartFull (s : Svc) (os : OS) (fx : Fx) (pid : Nat) (ct : Bool) : Svc × Fx × Option String :=
   let (fx, e0) := if ct then rpcCall os s.number fx "svc:RpcConnectionError" else (fx, none)
   match e0 with
-  | some e => (s, fx, some e)
+  | some e => (rpcErrSvc s pid, fx, some e)
   | none =>
     let (fx, e1) := rpcCall os s.number fx "svc:RpcNodeInfoError"
     match e1 with
-    | some e => (s, fx, some e)
+    | some e => (rpcErrSvc s pid, fx, some e)
     | none =>
       let (fx, e2) := rpcCall os s.number fx "svc:RpcNetworkInfoError"
       match e2 with
-      | some e => (s, fx, some e)
+      | some e => (rpcErrSvc s pid, fx, some e)
       | none =>
         let np := match os.lookup s.number with
           | some p => some p.port
@@ -235,6 +242,10 @@ def checkRange (r : Option (Nat × Nat)) (count : Nat) (ports : List Nat) : Opti
 
 def maxNumber (reg : List Svc) : Nat := reg.foldl (fun m s => max m s.number) 0
 
+/-- `current_node_count + 1`: the number of the first service of an `add`. -/
+def startNumber (reg : List Svc) : Nat :=
+  if Gen.Lifecycle.numberFromMax then maxNumber reg + 1 else reg.length + 1
+
 /-- `get_available_port` -/
 def allocPort (w : World) (fx : Fx) : Option Nat × World × Fx :=
   let (b, fx) := fx.pop
@@ -306,7 +317,7 @@ def addNode (w : World) (fx : Fx) (count : Nat) (np mp rp : Option (Nat × Nat))
   match checkRange rp count ports with
   | some e => (w, fx, .err e)
   | none =>
-    let a := addLoop count (maxNumber w.reg + 1) (np.map (·.1)) (mp.map (·.1)) (rp.map (·.1)) metrics ver
+    let a := addLoop count (startNumber w.reg) (np.map (·.1)) (mp.map (·.1)) (rp.map (·.1)) metrics ver
       ⟨w, fx, [], [], false⟩
     if a.aborted then (a.w, a.fx, .err "err:port-alloc")
     else if !a.failed.isEmpty then (a.w, a.fx, .err "err:partial")
